@@ -911,7 +911,10 @@ fn notifications(ctx: &mut Ctx, feats: u64, nevents: usize) {
     let mut dev = ODev { a: rig.evq, seen: 0, used: 0, fetched: vec![] };
     let mut expect: Vec<(u32, u32, u32)> = vec![];
     let mut done = 0;
-    while done < nevents {
+    // bounded whatever the code under test does (a driver that stops delivering must not make the scenario run for ever)
+    let mut rounds = 0usize;
+    while done < nevents && rounds < 4 * nevents + 64 {
+        rounds += 1;
         dev.fetch();
         let burst = ctx.rng.below(34) as usize;
         for _ in 0..burst {
